@@ -144,7 +144,8 @@ Definition positions (s : signal) : list Z :=
 
 (** the integers a raw value / start value / value description may take *)
 Definition in_raw_range (s : signal) (v : Z) : bool :=
-  if s_float s then (- 2 ^ 63 <=? v) && (v <? 2 ^ 63)
+  if s_length s =? 1 then (0 <=? v) && (v <=? 1)          (* 0/1 for 1-bit signals, signed or not *)
+  else if s_float s then (- 2 ^ 63 <=? v) && (v <? 2 ^ 63)
   else if s_signed s then (- 2 ^ (s_length s - 1) <=? v) && (v <=? 2 ^ (s_length s - 1) - 1)
   else (0 <=? v) && (v <=? 2 ^ s_length s - 1).
 
